@@ -59,7 +59,10 @@ def slim_docs(prefix):
 
     def edge(a, b):
         return {'sub': PURL + '%s_%07d' % (prefix, a), 'pred': 'is_a', 'obj': PURL + '%s_%07d' % (prefix, b)}
-    edges = [edge(2, 1), edge(3, 1), edge(4, 2), edge(4, 3), edge(5, 4), edge(6, 1), edge(7, 6)]
-    doc_a = {'graphs': [{'id': 'a', 'meta': {}, 'nodes': [node(i) for i in (1, 2, 3, 4, 5, 6, 7)], 'edges': edges}]}
-    doc_b = {'graphs': [{'id': 'b', 'meta': {}, 'nodes': [node(i) for i in (1, 2, 4, 5)], 'edges': edges}]}
+    # ids no other generated document declares (the random documents use 1..49, the chained ones 1..60): what an earlier
+    # case of the same process loaded must not mask the effect
+    b = 600
+    edges = [edge(b + 2, b + 1), edge(b + 3, b + 1), edge(b + 4, b + 2), edge(b + 4, b + 3), edge(b + 5, b + 4), edge(b + 6, b + 1), edge(b + 7, b + 6)]
+    doc_a = {'graphs': [{'id': 'a', 'meta': {}, 'nodes': [node(b + i) for i in (1, 2, 3, 4, 5, 6, 7)], 'edges': edges}]}
+    doc_b = {'graphs': [{'id': 'b', 'meta': {}, 'nodes': [node(b + i) for i in (1, 2, 4, 5)], 'edges': edges}]}
     return [doc_a, doc_b]
